@@ -165,6 +165,7 @@ def showFail : Fail → String
   | .panic (.debugAssert w) => s!"PANIC debugAssert {w.replace " " "_"}"
   | .budget b => s!"BUDGET bumps={b}"
   | .nonfinite => "NONFINITE"
+  | .fuel "order_events bubble sort" => "NOSORT"     -- the sort-pass hook of the real code
   | .fuel w => s!"FUEL {w.replace " " "_"}"
 
 def showEdgeType : EdgeType → String
